@@ -10,6 +10,7 @@ import (
 	"testing"
 	"testing/synctest"
 
+	kb "github.com/libp2p/go-libp2p-kbucket"
 	"github.com/libp2p/go-libp2p/core/peer"
 
 	"github.com/libp2p/go-libp2p-kad-dht/qpeerset"
@@ -55,6 +56,21 @@ func runC01(c *vu.Case) {
 	a := kv(strings.Fields(c.In[0]))
 	n, K := atoi(a["n"]), atoi(a["K"])
 	peers := map[int]simPeer{}
+	if strings.HasPrefix(a["peers"], "@") {
+		// the network is derived from the real identifiers: "@bc:<seed>" = k-bucket complete,
+		// "@full" = everybody knows everybody; the header is rewritten with the concrete knowledge
+		w0 := newWorld(n, "key-"+a["key"], disableFixLowPeersRoutine(c.T))
+		spec := genKnowledge(w0, a["peers"], K)
+		w0.close()
+		f0 := strings.Fields(c.In[0])
+		for j := range f0 {
+			if strings.HasPrefix(f0[j], "peers=") {
+				f0[j] = "peers=" + spec
+			}
+		}
+		c.In[0] = strings.Join(f0, " ")
+		a = kv(f0)
+	}
 	for _, t := range splitNonEmpty(a["peers"], "|") {
 		p := strings.SplitN(t, ":", 3)
 		peers[atoi(p[0])] = simPeer{beh: p[1][0], list: parseInts(p[2], ".")}
@@ -316,6 +332,95 @@ func runC01(c *vu.Case) {
 		c.Tag("cancelled")
 	}
 	c.Tag(fmt.Sprintf("api-%s", a["api"]))
+}
+
+// genKnowledge computes, from the peers' real Kademlia identifiers, who knows whom.
+func genKnowledge(w *world, mode string, K int) string {
+	r := vu.NewRNG(uint64(len(mode))*7919 + uint64(w.n))
+	if i := strings.IndexByte(mode, ':'); i > 0 {
+		r = vu.NewRNG(uint64(atoi(mode[i+1:])))
+	}
+	var specs []string
+	for c := 0; c < w.n; c++ {
+		var known []int
+		if strings.HasPrefix(mode, "@full") {
+			for m := 0; m < w.n; m++ {
+				known = append(known, m)
+			}
+		} else {
+			// buckets of c by common prefix length of the SHA-256 identifiers
+			buckets := map[int][]int{}
+			cid := kb.ConvertPeerID(w.pool[c])
+			for m := 0; m < w.n; m++ {
+				if m != c {
+					cpl := kb.CommonPrefixLen(cid, kb.ConvertPeerID(w.pool[m]))
+					buckets[cpl] = append(buckets[cpl], m)
+				}
+			}
+			for _, b := range buckets {
+				if len(b) < K {
+					known = append(known, b...) // a non-full bucket: knows all of it
+				} else {
+					r.Shuffle(len(b), func(i, j int) { b[i], b[j] = b[j], b[i] })
+					known = append(known, b[:K]...) // a full bucket: K of its members
+				}
+			}
+		}
+		sort.Ints(known)
+		ss := make([]string, len(known))
+		for i, x := range known {
+			ss[i] = fmt.Sprint(x)
+		}
+		specs = append(specs, fmt.Sprintf("%d:h:%s", c, strings.Join(ss, ".")))
+	}
+	return strings.Join(specs, "|")
+}
+
+func genC02(r *vu.RNG, c *vu.Case) bool {
+	n := r.Range(1, 60)
+	if c.Tier == "thorough" && r.Chance(1, 3) {
+		n = r.Range(60, 400)
+	}
+	K := []int{1, 2, 3, 3, 4, 5, 8, 20}[r.Intn(8)]
+	alpha := r.Range(1, K+2)
+	beta := r.Range(1, K+2)
+	mode := fmt.Sprintf("@bc:%d", r.Intn(1000000))
+	if r.Chance(1, 4) {
+		mode = "@full"
+	}
+	var rt []string
+	for p := 0; p < n; p++ {
+		if r.Chance(1, 6) || len(rt) == 0 && p == n-1 {
+			rt = append(rt, fmt.Sprint(p))
+		}
+	}
+	c.In = append(c.In, fmt.Sprintf("lookup n=%d key=%d K=%d a=%d b=%d api=core mode=%s rt=%s peers=%s", n, c.Idx, K, alpha, beta,
+		strings.TrimRight(strings.SplitN(mode, ":", 2)[0], ":"), strings.Join(rt, ","), mode))
+	policy := r.Intn(4)
+	for i := 0; i < 3*n+6; i++ {
+		switch policy {
+		case 0:
+			c.In = append(c.In, "next 0")
+		case 1:
+			c.In = append(c.In, "next 1000003")
+		case 2:
+			c.In = append(c.In, fmt.Sprintf("next %d", r.Intn(1000)))
+		default:
+			c.In = append(c.In, fmt.Sprintf("next %d", 999-i%3))
+		}
+	}
+	c.In = append(c.In, "finish")
+	c.Tag("mode-" + mode[:3])
+	if n >= 4 {
+		c.Tag("nontrivial")
+	}
+	return true
+}
+
+func TestVerifC02(t *testing.T) {
+	vu.Run(t, vu.Config{Prop: "C02", QuickN: 500, ThoroughN: 20000, Gen: genC02, Exec: func(c *vu.Case) {
+		synctest.Test(c.T, func(t *testing.T) { runC01(c) })
+	}})
 }
 
 func genC01(r *vu.RNG, c *vu.Case) bool {
